@@ -43,47 +43,52 @@ def run(ck: Check) -> None:
 
 
 def a(ck: Check) -> None:
+    from .symstr import SymEval
     fm = ck.prog.fm(SP, "percolate_space")
     f = fm.f
     net, sp = f.params()[0], f.params()[1]
+    se = SymEval(fm)
     probs = []
-    calls = [n for n in own_walk(f.node) if isinstance(n, ast.Call) and callee_name(n) == "percolate_subspace"]
-    if len(calls) != 1 or [text(x) for x in calls[0].args] != [net, sp]:
-        probs.append("does not delegate to Percolation.percolate_subspace(network, space)")
-    loops = [n for n in own_walk(f.node) if isinstance(n, ast.For)]
     rets = [r for r in own_walk(f.node) if isinstance(r, ast.Return)]
-    if len(loops) != 1 or any(isinstance(x, (ast.If, ast.Continue, ast.Break)) for x in ast.walk(loops[0])):
-        probs.append("items of AEON's result are filtered or skipped")
+    P = f"Percolation.percolate_subspace({net},{sp})"
+    if len(rets) != 1:
+        probs.append("the mapped dictionary is not what is returned")
     else:
-        lp = loops[0]
-        src = lp.iter
-        d = fm.single_def(src.func.value.id, fm.cfg.loop_header[lp]) if isinstance(src, ast.Call) and isinstance(src.func, ast.Attribute) \
-            and isinstance(src.func.value, ast.Name) else None
-        if not (isinstance(src, ast.Call) and callee_name(src) == "items" and d and d[1] is calls[0] if calls else False):
-            probs.append("the loop does not range over the items of AEON's result")
-        st = [s for s in lp.body if isinstance(s, ast.Assign) and isinstance(s.targets[0], ast.Subscript)]
-        var, val = [text(t) for t in lp.target.elts] if isinstance(lp.target, ast.Tuple) else ("?", "?")
-        if len(st) != 1 or f"int({val})" not in text(st[0].value):
-            probs.append("values are not copied as int(value)")
+        col = se.collection(rets[0].value, fm.cfgn(rets[0]))
+        want_el = f"{net}.get_network_variable_name(elem({P})):idx({P},elem({P}))"
+        if col is None:
+            probs.append("does not delegate to Percolation.percolate_subspace(network, space)")
         else:
-            k = st[0].targets[0].slice
-            kd = fm.single_def(k.id, fm.cfgn(st[0])) if isinstance(k, ast.Name) else None
-            if not (kd and text(kd[1]) == f"{net}.get_network_variable_name({var})"):
-                probs.append("keys are not the network names of AEON's variable ids")
-            if len(rets) != 1 or text(rets[0].value) != text(st[0].targets[0].value):
-                probs.append("the mapped dictionary is not what is returned")
-    ck.ob("A", fm, f.node, not probs, "; ".join(probs) if probs else "AEON's percolation returned name by name, unfiltered", key="delegation")
+            for el, cnd in col:
+                if el != want_el:
+                    if P not in el:
+                        probs.append("does not delegate to Percolation.percolate_subspace(network, space)")
+                    else:
+                        probs.append(f"items of AEON's result are rewritten (`{el[:90]}`): expected name -> value, copied as they are")
+                if logic.atoms(cnd):
+                    probs.append("items of AEON's result are filtered or skipped")
+            if not col:
+                probs.append("nothing is copied from AEON's result")
+    ck.ob("A", fm, f.node, not probs, "; ".join(sorted(set(probs))) if probs else "AEON's percolation returned name by name, unfiltered",
+          key="delegation")
 
 
 def b(ck: Check) -> None:
+    """percolate_space_strict as chaotic iteration, decided along the paths of one scan step: what happens to the scanned
+    variable when its function is undetermined / determined without conflict / determined in conflict with a given value."""
+    from .c13 import _flag_form, _tbranch
+    from .common import enumerate_paths
     fm = ck.prog.fm(SP, "percolate_space_strict")
     f = fm.f
     net, sp = f.params()[0], f.params()[1]
     whiles = [n for n in f.node.body if isinstance(n, ast.While)]
-    if len(whiles) != 1 or not (isinstance(whiles[0].test, ast.UnaryOp) and isinstance(whiles[0].test.operand, ast.Name)):
-        raise AnalysisError("percolate_space_strict: the propagation loop is not a `while not <flag>` fixpoint loop; this "
-                            "analyser only recognises the chaotic-iteration shape and cannot decide another algorithm")
+    form = _flag_form(fm, whiles[0]) if len(whiles) == 1 else None
+    if form is None:
+        raise AnalysisError("percolate_space_strict: the propagation loop is not a flag-controlled fixpoint loop (`while not done`, "
+                            "`while changed`, `while True ... if not changed: break`); this analyser only recognises the "
+                            "chaotic-iteration shape and cannot decide another algorithm")
     wl = whiles[0]
+    flag, cont = form
     inner = [n for n in wl.body if isinstance(n, ast.For)]
     if len(inner) != 1:
         raise AnalysisError("percolate_space_strict: a round is not one scan over the candidate variables")
@@ -99,176 +104,229 @@ def b(ck: Check) -> None:
         probs.append(f"`{cand}` does not start as the set of all network variables")
     pre = [n for n in f.node.body if isinstance(n, ast.For) and n.lineno < wl.lineno]
     okc = False
-    for p in pre:
-        rm = [x for x in ast.walk(p) if isinstance(x, ast.Call) and isinstance(x.func, ast.Attribute) and x.func.attr in ("remove", "discard")
+    for p_ in pre:
+        rm = [x for x in ast.walk(p_) if isinstance(x, ast.Call) and isinstance(x.func, ast.Attribute) and x.func.attr in ("remove", "discard")
               and text(x.func.value) == cand]
         if rm:
             pc = fm.pc(fm.cfgn(rm[0]))
             ats = {a_[1] for a_ in logic.atoms(pc) if a_[0] == "b"}
             if any("is_true()" in x for x in ats) and any("is_false()" in x for x in ats):
                 okc = True
+    if isinstance(cd[0].value if cd else None, (ast.SetComp, ast.ListComp)) or (cd and any(isinstance(x, (ast.SetComp, ast.ListComp)) for x in ast.walk(cd[0].value))):
+        comp = next(x for x in ast.walk(cd[0].value) if isinstance(x, (ast.SetComp, ast.ListComp)))
+        t_ = " ".join(text(c_) for g_ in comp.generators for c_ in g_.ifs)
+        if "is_true()" in t_ and "is_false()" in t_:
+            okc = True
     if not okc:
         probs.append("variables with constant update functions are not removed before propagation (the strict variant must not "
                      "propagate constants of the network itself)")
     if not (isinstance(it, ast.Call) and callee_name(it) in ("copy", "list", "sorted", "tuple", "set")) or cand == text(it):
         probs.append("a round does not scan a snapshot of all remaining candidates")
     ck.ob("B", fm, wl, not probs, "; ".join(probs) if probs else "each round rescans all remaining non-constant variables", key="rounds")
-    # the working space: copy of the given space; stores
+    # the working space and the evaluated value
     probs = []
     fe = [n for n in ast.walk(il) if isinstance(n, ast.Call) and callee_name(n) == "function_eval"]
-    work = text(fe[0].args[1]) if fe else None
-    wd = [n for n in f.node.body if isinstance(n, (ast.Assign, ast.AnnAssign)) and text(n.targets[0] if isinstance(n, ast.Assign) else n.target) == work]
-    if not fe or not wd or f"copy({sp})" not in text(wd[0].value):
+    if len(fe) != 1 or not isinstance(f.stmt_of(fe[0]), ast.Assign) or f.stmt_of(fe[0]).value is not fe[0]:
+        raise AnalysisError("percolate_space_strict: the evaluation of the scanned variable's function is not recognised")
+    work = text(fe[0].args[1])
+    EV = text(f.stmt_of(fe[0]).targets[0])
+    wd = [n for n in f.node.body if isinstance(n, ast.Assign) and text(n.targets[0]) == work]
+    if not wd or f"copy({sp})" not in text(wd[0].value) and text(wd[0].value) not in (f"dict({sp})", f"{sp}.copy()", f"{{**{sp}}}"):
         probs.append("propagation does not start from a copy of the given space")
-    else:
-        fn = fe[0].args[0]
-        fd = fm.single_def(fn.id, fm.cfgn(fe[0])) if isinstance(fn, ast.Name) else None
-        if not (fd and text(fd[1]) == f"{net}.mk_update_function({var})"):
-            probs.append("the evaluated function is not the update function of the scanned variable")
-    stores = [n for n in ast.walk(il) if isinstance(n, ast.Assign) and isinstance(n.targets[0], ast.Subscript)]
-    fv = text(f.stmt_of(fe[0]).targets[0]) if fe and isinstance(f.stmt_of(fe[0]), ast.Assign) else "?"
+    fnd = fm.deref(fe[0].args[0], fm.cfgn(fe[0]))
+    if text(fnd) != f"{net}.mk_update_function({var})":
+        probs.append("the evaluated function is not the update function of the scanned variable")
     res = None
     rets = [r for r in own_walk(f.node) if isinstance(r, ast.Return)]
     if len(rets) == 1 and isinstance(rets[0].value, ast.Name):
         res = rets[0].value.id
-    for s_ in stores:
-        tgt = text(s_.targets[0].value)
-        if text(s_.targets[0].slice) != var or text(s_.value) != fv:
-            probs.append(f"line {s_.lineno}: `{text(s_)}` does not store the evaluated value of the scanned variable")
-            continue
-        from .c03 import dom_pc_text
-        pc = dom_pc_text(fm, fm.cfgn(s_), fm.cfg.loop_nodes[il])  # conditions as evaluated at the tests
-        conflict = logic.And(logic.B(f"in:{var}|{work}"), logic.Not(logic.B("eq:" + "|".join(sorted([f"{work}[{var}]", fv])))))
-        want = logic.And(logic.Not(logic.B(f"none:{fv}")), logic.Not(conflict))
-        try:
-            if not logic.equivalent(pc, want):
-                probs.append(f"line {s_.lineno}: `{tgt}[{var}]` is written under `{logic.show(pc)[:140]}`; expected: the function is "
-                             f"determined and the variable is not already given with a different value (given values are kept even "
-                             f"when they conflict with the dynamics)")
-        except logic.TooBig:
-            probs.append("store condition too complex")
-    tg = {text(s_.targets[0].value) for s_ in stores}
-    if work not in tg or (res and res not in tg):
-        probs.append("newly fixed values must enter both the working space and the result")
-    if res and [n for n in f.node.body if isinstance(n, (ast.Assign, ast.AnnAssign)) and text(n.targets[0] if isinstance(n, ast.Assign) else n.target) == res
+    if res and [n for n in f.node.body if isinstance(n, ast.Assign) and text(n.targets[0]) == res
                 and not (isinstance(n.value, ast.Dict) and not n.value.keys)]:
         probs.append("the result does not start empty (it must contain only newly fixed variables)")
-    ck.ob("B", fm, il, not probs, "; ".join(probs) if probs else
-          "values stored only when determined and not in conflict with a given value; result = newly fixed values", key="stores")
-    # removal discipline and the flag
-    probs = []
-    flag = whiles[0].test.operand.id
-    for x in ast.walk(il):
-        if isinstance(x, ast.Call) and isinstance(x.func, ast.Attribute) and x.func.attr in ("remove", "discard") and text(x.func.value) == cand:
-            pc = fm.pc(fm.cfgn(x))
-            if not logic.implies(pc, logic.Not(logic.B(f"none:{fv}"))):
-                probs.append(f"line {x.lineno}: a variable is dropped from the candidates although its function is still undetermined "
-                             f"(it could become determined in a later round)")
-    clears = [x for x in ast.walk(il) if isinstance(x, ast.Assign) and text(x.targets[0]) == flag and is_false(x.value)]
-    if not clears:
-        probs.append("a newly fixed value does not trigger another round")
-    else:
-        for s_ in stores:
-            if text(s_.targets[0].value) == work:
-                blk = fm.f.parents.get(s_)
-                if not any(fm.f.parents.get(c_) is blk for c_ in clears):
-                    probs.append("a value is fixed without requesting another round: variables that depend on it are not re-evaluated")
-    ck.ob("B", fm, wl, not probs, "; ".join(probs) if probs else
-          "undetermined variables stay candidates; every new value triggers another round", key="fixpoint")
+    # one scan step, path by path
+    NONE = logic.B(f"none:{EV}")
+    INW = logic.B(f"in:{var}|{work}")
+    l_, r_ = sorted([f"{work}[{var}]", EV])
+    EQ = logic.B(f"eq:{l_}|{r_}")
+    conflict = logic.And(INW, logic.Not(EQ))
+    hdr = fm.cfg.loop_header[il]
+    ids = fm.cfg.loop_nodes[il]
+    outside = {n.id for n in fm.cfg.nodes if n.id not in ids and n.id != hdr.id}
+    fix_probs = []
+    n_paths = 0
+    for path in enumerate_paths(fm, _tbranch(fm, il), hdr, stop=outside):
+        facts = []
+        ev_seen = False
+        stores = {work: None, res: None}
+        removed = False
+        flagged = False
+        for i in path:
+            n = fm.cfg.nodes[i]
+            if n.kind == "branch" and n.test is not None and ev_seen:
+                tnode = fm.cfg.nodes[next(iter(fm.cfg.g.predecessors(n.id)))]
+                ff = fm.translator(tnode).f(n.test)
+                facts.append(ff if n.pol else logic.Not(ff))
+            if n.kind == "stmt":
+                a_ = n.ast
+                if a_ is f.stmt_of(fe[0]):
+                    ev_seen = True
+                if isinstance(a_, ast.Assign) and isinstance(a_.targets[0], ast.Subscript) and text(a_.targets[0].value) in stores:
+                    stores[text(a_.targets[0].value)] = (text(a_.targets[0].slice), text(a_.value))
+                if isinstance(a_, ast.Assign) and text(a_.targets[0]) == flag and isinstance(a_.value, ast.Constant) and a_.value.value is cont:
+                    flagged = True
+                for c_ in ast.walk(a_) if not isinstance(a_, (ast.FunctionDef, ast.ClassDef)) else []:
+                    if isinstance(c_, ast.Call) and isinstance(c_.func, ast.Attribute) and c_.func.attr in ("remove", "discard") \
+                            and text(c_.func.value) == cand:
+                        removed = True
+        hyp = logic.And(*facts)
+        try:
+            if not logic.satisfiable(hyp):
+                continue
+        except logic.TooBig:
+            fix_probs.append("scan step too complex to decide")
+            continue
+        n_paths += 1
+        desc = f"(when {logic.show(hyp)[:110]})"
+        undet = logic.implies(hyp, NONE)
+        det_ok = logic.implies(hyp, logic.And(logic.Not(NONE), logic.Not(conflict)))
+        det_conf = logic.implies(hyp, logic.And(logic.Not(NONE), conflict))
+        if not (undet or det_ok or det_conf):
+            fix_probs.append(f"a scan step does not distinguish undetermined / determined / conflicting {desc}")
+            continue
+        w_, r2 = stores[work], stores[res]
+        if undet:
+            if w_ or r2 or removed:
+                fix_probs.append(f"a variable whose function is still undetermined is fixed or dropped from the candidates {desc} "
+                                 f"(it could become determined in a later round)")
+        elif det_conf:
+            if w_ or r2:
+                fix_probs.append(f"a given value is overwritten (or reported) although it conflicts with the dynamics {desc}: given "
+                                 f"values are kept even when they conflict")
+        else:
+            if w_ != (var, EV) or r2 != (var, EV):
+                fix_probs.append(f"a newly determined value does not enter both the working space and the result {desc}")
+            if not flagged:
+                fix_probs.append(f"a value is fixed without requesting another round {desc}: variables that depend on it are not "
+                                 f"re-evaluated")
+    if n_paths < 3:
+        fix_probs.append("the scan step does not have the three cases undetermined / determined / conflict")
+    ck.ob("B", fm, il, not probs and not fix_probs, "; ".join(probs + sorted(set(fix_probs))) if (probs or fix_probs) else
+          "values stored only when determined and not in conflict with a given value; result = newly fixed values; "
+          "undetermined variables stay candidates; every new value triggers another round", key="stores")
+    ck.ob("B", fm, wl, True, f"flag-controlled rounds (`{flag}` continues with {cont})", key="fixpoint")
 
 
 def c(ck: Check) -> None:
+    """function_eval by case analysis on the constancy of f: for f false / f true / f not constant, every return that is
+    reachable in that case returns the right value."""
+    from .symstr import SymEval
     fm = ck.prog.fm("biobalm.symbolic_utils", "function_eval")
     f = fm.f
     fp, sp = f.params()[0], f.params()[1]
     probs = []
-    red = None
-    for n in own_walk(f.node):
-        if isinstance(n, ast.Assign) and isinstance(n.value, ast.Call) and callee_name(n.value) == "r_restrict":
-            red = text(n.targets[0])
-            if text(n.value.func.value) != fp or text(n.value.args[0]) != sp:
-                probs.append("the function is not restricted to the given state")
-    if red is None:
-        probs.append("no restriction to the state")
-    seen = set()
-    for r in own_walk(f.node):
-        if isinstance(r, ast.Return):
-            pc = fm.pc(fm.cfgn(r))
-            v = r.value
-            ats = {a_[1] for a_ in logic.atoms(pc) if a_[0] == "b"}
-            if isinstance(v, ast.Constant) and v.value in (0, 1) and not isinstance(v.value, bool):
-                want = "is_true()" if v.value == 1 else "is_false()"
-                pos = [a_ for a_ in ats if want in a_ and logic.implies(pc, logic.B(a_))]
-                if not pos:
-                    probs.append(f"line {r.lineno}: returns {v.value} under `{logic.show(pc)}`; expected only when the (restricted) "
-                                 f"function {want}")
-                else:
-                    seen.add((v.value, pos[0].split(".")[0][2:]))
-            elif is_none(v):
-                if not all(logic.implies(pc, logic.Not(logic.B(a_))) for a_ in ats):
-                    probs.append("None returned although a constant was recognised")
+    R = f"{fp}.r_restrict({sp})"
+    IS_T, IS_F = logic.B(f"T:{R}.is_true()"), logic.B(f"T:{R}.is_false()")
+    cases = [("the constant false", {f"{fp}.is_false()": True, f"{fp}.is_true()": False}, "0"),
+             ("the constant true", {f"{fp}.is_false()": False, f"{fp}.is_true()": True}, "1"),
+             ("a non-constant function", {f"{fp}.is_false()": False, f"{fp}.is_true()": False}, None)]
+    for label, assume, const in cases:
+        se = SymEval(fm, assume=assume)
+        H = se.hypothesis()
+        reached = 0
+        for r in own_walk(f.node):
+            if not isinstance(r, ast.Return):
+                continue
+            rn = fm.cfgn(r)
+            hyp = logic.And(H, se.cond(rn))
+            if not logic.satisfiable(hyp):
+                continue
+            reached += 1
+            v = se.val(r.value, rn) if r.value is not None else "None"
+            if const is not None:
+                # restricting a constant gives the same constant: both spellings of the test are accepted
+                same = {f"T:{R}.is_true()": const == "1", f"T:{R}.is_false()": const == "0"}
+                hyp2 = logic.And(hyp, *[logic.B(k) if t else logic.Not(logic.B(k)) for k, t in same.items()])
+                if logic.satisfiable(hyp2) and v != const:
+                    probs.append(f"for {label} the function can return {v} (expected {const})")
             else:
-                probs.append(f"returns `{text(v)}`")
-    need = {(0, fp), (1, fp), (0, red), (1, red)}
-    if red and not need <= seen:
-        probs.append(f"missing cases {sorted(need - seen)}: constants must be recognised before and after the restriction")
-    ck.ob("C", fm, f.node, not probs, "; ".join(probs) if probs else "is_true -> 1, is_false -> 0, else None (before and after restriction)",
-          key="function_eval")
+                if v == "1" and not logic.implies(hyp, IS_T):
+                    probs.append(f"returns 1 under `{logic.show(se.cond(rn))[:100]}`; expected only when the restricted function is true")
+                elif v == "0" and not logic.implies(hyp, IS_F):
+                    probs.append(f"returns 0 under `{logic.show(se.cond(rn))[:100]}`; expected only when the restricted function is false")
+                elif v == "None" and not logic.implies(hyp, logic.And(logic.Not(IS_T), logic.Not(IS_F))):
+                    probs.append("None returned although the restricted function is a constant")
+                elif v not in ("0", "1", "None"):
+                    probs.append(f"returns `{v}`")
+        if not reached:
+            probs.append(f"no return for {label}")
+    ck.ob("C", fm, f.node, not probs, "; ".join(sorted(set(probs))) if probs else
+          "is_true -> 1, is_false -> 0, else None (before and after restriction)", key="function_eval")
 
 
 def d(ck: Check) -> None:
+    from .. import peval
+    from ..repo import Func
+    from .symstr import SymEval
     prog = ck.prog
-    fm = prog.fm("biobalm.drivers", "find_single_node_LDOIs")
-    f = fm.f
+    fm0 = prog.fm("biobalm.drivers", "find_single_node_LDOIs")
+    f = fm0.f
+    net = f.params()[0]
+    fm = FuncModel(prog, Func(f.module, f.qualname, peval.specialise(f.node, {}, unroll=True), f.cls, f.parent))
+    se = SymEval(fm)
     probs = []
-    st = [n for n in own_walk(f.node) if isinstance(n, ast.Assign) and isinstance(n.targets[0], ast.Subscript) and "LDOI" in text(n.targets[0].value)]
-    vals = set()
-    for s_ in st:
-        k = s_.targets[0].slice
-        v = s_.value
-        if not (isinstance(k, ast.Tuple) and isinstance(v, ast.Call) and callee_name(v) == "percolate_space_strict"
-                and isinstance(v.args[1], ast.Dict) and text(v.args[1].keys[0]) == text(k.elts[0]) and text(v.args[1].values[0]) == text(k.elts[1])):
-            probs.append(f"`{text(s_)[:70]}`: the LDOI of (variable, value) must be the strict percolation of exactly that value")
-        else:
-            vals.add(text(k.elts[1]))
-    if vals != {"0", "1"}:
-        probs.append("both values of every variable must be covered")
-    sk = [n for n in own_walk(f.node) if isinstance(n, ast.Continue)]
-    if sk:
-        t = fm.f.parents[sk[0]].test
-        if "is_true()" not in text(t) or "is_false()" not in text(t):
-            probs.append("variables are skipped for another reason than a constant update function")
-    ck.ob("D", fm, f.node, not probs, "; ".join(probs) if probs else "LDOI(x=v) = strict percolation of {x: v}, constants skipped", key="single LDOIs")
+    rets = [r for r in own_walk(fm.f.node) if isinstance(r, ast.Return) and r.value is not None]
+    col = se.collection(rets[-1].value, fm.cfgn(rets[-1])) if rets else None
+    net = se.val(ast.Name(net, ast.Load()), fm.cfgn(rets[-1])) if rets else net   # the graph the function works on
+    V = f"elem({net}.network_variable_names())"
+    FN = f"{net}.mk_update_function({V})"
+    notconst = logic.And(logic.Not(logic.B(f"T:{FN}.is_true()")), logic.Not(logic.B(f"T:{FN}.is_false()")))
+    if not col:
+        probs.append("the LDOIs are not collected into the returned dictionary")
+    else:
+        got = {}
+        for el, cnd in col:
+            got.setdefault(el, []).append(cnd)
+        for v in ("0", "1"):
+            want = f"({V},{v}):percolate_space_strict({net},{{{V}:{v}}})"
+            if want not in got:
+                probs.append(f"the LDOI of (variable, {v}) is not the strict percolation of exactly that value for every variable "
+                             f"(both values of every variable must be covered)")
+            elif not logic.equivalent(logic.Or(*got[want]), notconst):
+                probs.append("variables are skipped for another reason than a constant update function")
+        for el in got:
+            if not any(el == f"({V},{v}):percolate_space_strict({net},{{{V}:{v}}})" for v in ("0", "1")):
+                probs.append(f"`{el[:90]}`: the LDOI of (variable, value) must be the strict percolation of exactly that value")
+    ck.ob("D", fm0, f.node, not probs, "; ".join(sorted(set(probs))) if probs else "LDOI(x=v) = strict percolation of {x: v}, constants skipped",
+          key="single LDOIs")
     fm = prog.fm("biobalm.drivers", "find_single_drivers")
     f = fm.f
-    tgt = f.params()[0]
+    tgt, net2 = f.params()[0], f.params()[1]
+    se = SymEval(fm)
     probs = []
-    adds = [n for n in own_walk(f.node) if isinstance(n, ast.Call) and isinstance(n.func, ast.Attribute) and n.func.attr == "add"]
-    if len(adds) != 1:
+    rets = [r for r in own_walk(f.node) if isinstance(r, ast.Return) and r.value is not None]
+    col = se.collection(rets[-1].value, fm.cfgn(rets[-1])) if rets else None
+    if not col or len(col) != 1:
         probs.append("drivers are not collected at one place")
     else:
-        tests = [(t, p) for t, p, b in fm.facts(fm.cfgn(adds[0])) if b.loop is None and isinstance(t, ast.Compare)]
-        lp = [l for l in fm.cfg.enclosing_loops(fm.cfgn(adds[0])) if isinstance(l, ast.For)]
-        fix, ld = [text(x) for x in lp[0].target.elts] if lp and isinstance(lp[0].target, ast.Tuple) else ("?", "?")
-        if not tests:
-            probs.append("a driver is accepted without a containment test")
+        el, cnd = col[0]
+        import re
+        m = re.match(r"^elem\((.*)\)$", el)
+        L = m.group(1) if m else None
+        if L is None:
+            probs.append(f"a driver is `{el[:60]}`, not a (variable, value) key of the LDOI table")
         else:
-            t, p = tests[-1]
-            ok = p and isinstance(t.ops[0], ast.LtE) and text(t.left) == f"{tgt}.items()" \
-                and text(t.comparators[0]).replace(" ", "") in (f"{ld}.items()|{{{fix}}}", f"{{{fix}}}|{ld}.items()")
-            if not ok:
-                probs.append(f"acceptance test `{text(t)}`; expected target.items() <= LDOI.items() | {{the fixed value itself}}")
-        if text(adds[0].args[0]) != fix:
-            probs.append("the accepted driver is not the tested one")
-    dflt = f.param_defaults().get("LDOIs")
-    if dflt is not None and not is_none(dflt):
-        probs.append("the default LDOI table is a shared object")
-    cp = [n for n in own_walk(f.node) if isinstance(n, ast.Assign) and text(n.targets[0]) == "LDOIs" and "find_single_node_LDOIs" in text(n.value)]
-    if not cp or text(cp[0].value.args[0]) != "network":
-        probs.append("missing LDOIs are not computed from the given network")
-    else:
-        pc = fm.pc(fm.cfgn(cp[0]))
-        if not logic.equivalent(pc, logic.B("none:LDOIs")):
-            probs.append(f"LDOIs are (re)computed under `{logic.show(pc)}`, expected: exactly when none were supplied")
-    ck.ob("D", fm, f.node, not probs, "; ".join(probs) if probs else "driver iff target <= LDOI + {fixed value}; LDOIs of the given network",
-          key="single drivers")
+            fixk, ldoi = f"elem({L})", f"idx({L},elem({L}))"
+            ats = [a_ for a_ in logic.atoms(cnd) if a_[0] == "b"]
+            oks = [a_ for a_ in ats if a_[1].replace(" ", "") in (f"le:items({tgt})|(items({ldoi})BitOr{{{fixk}}})".replace(" ", ""),
+                                                                   f"le:items({tgt})|({{{fixk}}}BitOritems({ldoi}))".replace(" ", ""))]
+            if not oks or not logic.equivalent(cnd, ("atom", oks[0])):
+                probs.append(f"a driver is accepted under `{logic.show(cnd)[:140]}`; expected: the target is contained in its LDOI "
+                             f"together with the fixed value itself")
+            # the table: the given one, or computed from the given network
+            NET2 = se.val(ast.Name(net2, ast.Load()), fm.cfgn(rets[-1]))
+            if "find_single_node_LDOIs" in L and f"find_single_node_LDOIs({NET2})" not in L:
+                probs.append("the LDOIs are computed from another network than the one given")
+            if "find_single_node_LDOIs" not in L:
+                probs.append("when no table is supplied, the drivers are not searched in LDOIs freshly computed from the given "
+                             "network (a table filled for another network may be used)")
+    ck.ob("D", fm, f.node, not probs, "; ".join(probs) if probs else "driver iff target <= LDOI + {the fixed value}", key="single drivers")
